@@ -36,10 +36,82 @@ def c07_jobs(tier):
     return jobs
 
 
+def c17_jobs(tier):
+    q = tier == "quick"
+    dl, ql = (8, 12) if q else (10, 16)
+    F = ["check_topdomain", "query_datalen"]
+    jobs = [
+        Job("validate-sym-DL%d" % dl, "C17_domain.c", defs={"MODE": 1, "DL": dl}, units=["common.c"], unwind=dl + 3,
+            desc="check_topdomain vs statement-derived reference, fully symbolic string", functions=F[:1],
+            bounds="domain string 0..%d chars over all 256 byte values, wildcard flag symbolic" % dl),
+        Job("match-sym-DL%d-QL%d" % (dl, ql), "C17_domain.c", defs={"MODE": 2, "DL": dl, "QL": ql}, units=["common.c"],
+            unwind=ql + 3, desc="query_datalen vs label-boundary reference", functions=F[1:],
+            bounds="query name 0..%d chars (all byte values, no '..'), accepted domain 3..%d chars incl. wildcard" % (ql, dl)),
+        Job("validate-shaped", "C17_domain.c", defs={"MODE": 3}, units=["common.c"], unwind=140,
+            desc="check_topdomain on long strings built from symbolic label lengths", functions=F[:1],
+            bounds="1..5 labels of 1..70 chars of one symbolic legal char, total <= 135, optional '*.' prefix", timeout=1500),
+        Job("match-shaped", "C17_domain.c", defs={"MODE": 4, "DL": 6}, units=["common.c"], unwind=150,
+            desc="query_datalen on long names: shaped data part + symbolic domain with one case flip", functions=F[1:],
+            bounds="data part up to 135 chars in 1..5 labels, domain 3..6 chars", timeout=1500),
+        Job("test-vectors", "C17_domain.c", defs={"MODE": 5}, units=["common.c"], unwind=64,
+            desc="reference and real functions on the vectors of tests/common.c (validates the reference)", functions=F,
+            bounds="concrete"),
+    ]
+    if q:
+        jobs = [j for j in jobs if "shaped" not in j.name]
+    return jobs
+
+
+# shrink the per-user answer cache too (struct tun_user is ~20 KB even after 64K scaling)
+SHRINK_DNSCACHE = [(r"dnscache_answer\[DNSCACHE_LEN\]\[4096\]", "dnscache_answer[DNSCACHE_LEN][16]")]
+
+
+# C18 touches none of the buffers: shrink every array in struct tun_user / struct query
+SHRINK_ALL = SHRINK_DNSCACHE + [(r"#define QUERY_NAME_SIZE 256", "#define QUERY_NAME_SIZE 8"),
+                                (r"#define QMEMPING_LEN 30", "#define QMEMPING_LEN 2"),
+                                (r"#define QMEMDATA_LEN 15", "#define QMEMDATA_LEN 2"),
+                                (r"#define OUTPACKETQ_LEN 4\b", "#define OUTPACKETQ_LEN 1"),
+                                (r"#define DNSCACHE_LEN 4\b", "#define DNSCACHE_LEN 1")]
+
+
+def c18_jobs(tier):
+    return [
+        Job("init-users", "C18_pool.c", defs={"MODE": 1}, units=["user.c"], scale=16, subst=SHRINK_ALL, unwind=33,
+            desc="init_users with symbolic server address and prefix length; count/subnet/distinctness assertions",
+            bounds="all 2^32 server addresses x netbits 8..30 (symbolic); struct packet buffers scaled to 16 bytes (unused here)",
+            functions=["init_users"], timeout=900),
+        Job("find-user-by-ip", "C18_pool.c", defs={"MODE": 2}, units=["user.c"], scale=16, subst=SHRINK_ALL, unwind=18,
+            desc="find_user_by_ip from an arbitrary 16-slot table and clock vs first-match reference",
+            bounds="16 slots, arbitrary flags/addresses, last_pkt <= now < 2^31, usercount 0..16",
+            functions=["find_user_by_ip"], timeout=900),
+    ]
+
+
 HOOK_COMMITS = []
 PENDING = {}
 
 PROPS = {
+    "C18": {
+        "jobs": c18_jobs, "level": "model_checking",
+        "level_text": "init_users executed symbolically for every server address and every prefix length 8..30 in one query; "
+                      "find_user_by_ip from an arbitrary table. Exhaustive within the type widths (no sampling of positions).",
+        "level_note": "libc models (CBMC build only): snprintf(\"0.0.0.%d\")+inet_addr composition, htonl/ntohl builtins; "
+                      "time() constant during one lookup; calloc never fails.",
+        "explanation": "two SAT queries; my_ip is a free 32-bit vector, netbits a free int in 8..30",
+        "assumptions": ["snprintf/inet_addr modelled for the one format used", "time() constant within one lookup",
+                        "last_pkt <= now (session invariant)", "malloc/calloc do not fail"],
+    },
+    "C17": {
+        "jobs": c17_jobs, "level": "model_checking",
+        "level_text": "Differential bounded check: real check_topdomain/query_datalen against a reference written from the "
+                      "statement, strings fully symbolic over all byte values (short) and shaped from symbolic label "
+                      "lengths (63/64 and 128/129 boundaries); reference first validated on the repo's own test vectors.",
+        "level_note": "domain <= 8/10 and name <= 12/16 chars fully symbolic; long strings only of the shaped form; C locale "
+                      "(CBMC models of tolower/isdigit). Names with consecutive dots excluded as the property states.",
+        "explanation": "one SAT query per mode; the solver searches all strings within the bound for a disagreement",
+        "assumptions": ["C locale ctype (CBMC library models of tolower/isdigit)", "query names contain no '..' (stated precondition)",
+                        "matching only checked against domains the reference accepts (allow_wildcard=1)"],
+    },
     "C07": {
         "jobs": c07_jobs, "level": "model_checking",
         "level_text": "Bounded exhaustive by solver: for each of the four real codec units one SAT query covers every input "
